@@ -16,6 +16,12 @@ def claim(pid, technique, text, note, ref):
     CLAIMS[pid] = (technique, text, note, ref)
 
 
+def extend(pid, text=None, technique=None):
+    """second-session additions to a claim (appended, so the first-session wording stays reviewable)"""
+    t, x, n, r = CLAIMS[pid]
+    CLAIMS[pid] = (t + ('; ' + technique if technique else ''), x + (' ' + text if text else ''), n, r)
+
+
 NOT_APPLICABLE = {}
 
 
@@ -25,7 +31,7 @@ def na(pid, reason):
 
 def load_claims():
     here = os.path.join(VERIF, 'tools', 'claims.py')
-    ns = {'claim': claim, 'na': na}
+    ns = {'claim': claim, 'na': na, 'extend': extend}
     with open(here) as fh:
         exec(compile(fh.read(), here, 'exec'), ns)
 
